@@ -3,5 +3,6 @@ CONSTANTS
   Budget = 2
   MaxW = 2
   Emit = TRUE
+  Start = "Stmt"
 INVARIANTS TypeOK Disjoint Compositional Monotone Roots Export
 CHECK_DEADLOCK FALSE
